@@ -382,10 +382,18 @@ def rule7_replay(ctx):
                 return av.get('', 0)
             return None
         zero = [st for st in sts if const_int(st.ops[0]) == 0]
+        zero_ms = []
+        for mc_ in f.calls():
+            if (mc_.callee or '').startswith('llvm.memset') and f.strip(f.ap(mc_.args[0]).root) == R and const_int(mc_.args[1]) == 0:
+                def shape(v_):
+                    a_ = affine(f, v_)
+                    return sorted((f.field(f.insts[k]) if k in f.insts and f.insts[k].op == 'load' else k, c_) for k, c_ in a_.items() if c_ != 0)
+                if shape(mc_.args[2]) == shape(rc[0].args[0]) and not f.ap(mc_.args[0]).steps:
+                    zero_ms.append(mc_)             # memset(ready_count, 0, <the allocated size>)
         inc = [st for st in sts if delta(st) == 1]
         dec = [st for st in sts if delta(st) == -1]
-        ctx.ob('C19.7', 'ready counts: zeroed, +1 per edge, -1 per finished predecessor', len(zero) == 1 and len(inc) == 1 and len(dec) == 1 and
-               len(sts) == 3, 'exactly these three writers', loc=f.loc, detail='%d stores' % len(sts))
+        ctx.ob('C19.7', 'ready counts: zeroed, +1 per edge, -1 per finished predecessor', len(zero) + len(zero_ms) == 1 and len(inc) == 1 and
+               len(dec) == 1 and len(sts) == 2 + len(zero), 'exactly these three writers', loc=f.loc, detail='%d stores' % len(sts))
 
         def idx_is_edge_target(st):
             ix = [x for x in f.ap(st.ops[1]).steps if x[0] in ('p', 'i')]
@@ -412,6 +420,10 @@ def rule7_replay(ctx):
                                     okz = True
             ctx.ob('C19.7', 'ready counts are cleared for exactly the n nodes allocated', okz, 'for (i = 0; i < G->n; i++) ready_count[i] = 0',
                    loc=zero[0].loc)
+        if zero_ms and len(inc) == 1:
+            ctx.ob('C19.7', 'ready counts are cleared for exactly the n nodes allocated', True, 'memset over the allocated size', loc=zero_ms[0].loc)
+            ctx.ob('C19.7', 'counts are complete before the replay starts', f.dominates_f(zero_ms[0], inc[0]) and deq[0] in f.reachable_from(inc[0]) and
+                   inc[0] not in f.reachable_from(deq[0]), 'clear, then one increment per edge, then the event loop', loc=inc[0].loc)
         if len(zero) == 1 and len(inc) == 1:
             r_z, r_i, r_d = f.reachable_from(zero[0]), f.reachable_from(inc[0]), f.reachable_from(deq[0])
             ctx.ob('C19.7', 'counts are complete before the replay starts', inc[0] in r_z and zero[0] not in r_i and deq[0] in r_i and
@@ -534,10 +546,12 @@ def rule6_grouping(ctx, w):
         iv = node_index(e_)
         okb = False
         for ic in f.order:
-            if ic.op == 'icmp' and ic.pred in ('slt', 'ult') and isinstance(iv, str) and f.strip(ic.ops[0]) == f.strip(iv):
-                dd = lib.affine_diff(f, ic.ops[1], {'c': 0, 'w': 64})
+            if ic.op == 'icmp' and ic.pred in ('slt', 'ult') and isinstance(iv, str):
+                # i + k < n with k >= 1, in any arrangement: (lhs - rhs) = i - n + k
+                dd = lib.affine_diff(f, ic.ops[0], ic.ops[1])
                 nl = lib.load_terms(f, dd, PI + 'n')
-                if len(nl) == 1 and dd[nl[0]] == 1 and dd.get('', 0) <= -1 and len(dd) == 2:
+                ivk = f.strip(iv)
+                if len(nl) == 1 and dd[nl[0]] == -1 and dd.get(ivk, 0) == 1 and dd.get('', 0) >= 1 and len([k for k in dd if k != '']) == 2:
                     for br in f.users(ic.id):
                         if br.op == 'br' and 'cond' in br.d and f.edge_dominates(br.block.id, br.d['t'], comp[0]):
                             okb = True
@@ -548,7 +562,7 @@ def rule6_grouping(ctx, w):
         for ph in [i for i in hb.insts if i.op == 'phi' and i.ty == 'i64']:
             ds = [lib.min_delta(f, val, ph.id) for val, b in ph.d['incoming'] if b in lp['blocks']]
             if ds and all(d_ is not None and d_ >= 1 for d_ in ds) and any(
-                    ic.op == 'icmp' and f.strip(ic.ops[0]) == ph.id and ic.block.id in lp['blocks'] for ic in f.order):
+                    ic.op == 'icmp' and ic.block.id in lp['blocks'] and ph.id in lib.affine_diff(f, ic.ops[0], ic.ops[1]) for ic in f.order):
                 adv = True
         ctx.ob('C19.6', 'scan at block %d advances on every iteration' % lp['header'], adv,
                'a scan whose index stands still never terminates', loc=f.loc)
